@@ -664,6 +664,9 @@ func c01reflectGuard(p *core.Prog, f *ssa.Function, call *ssa.Call, method strin
 		if !present {
 			return false, "not on the path where the source Maybe is present"
 		}
+		if len(call.Call.Args) == 0 {
+			return false, "reflect call through a method value: its receiver cannot be related to the guards"
+		}
 		recv := core.Resolve(call.Call.Args[0])
 		// calls on ValueOf(dest).Elem(): need !IsNil(dest), dest being a parameter of the enclosing function
 		var dest *ssa.Parameter
